@@ -14,6 +14,7 @@ From Verif.Util Require Import IdSeq.
 From Verif.Txn Require Import Txn.
 From Verif.Cli Require Import Options.
 From Verif.Client Require Import ClTypes ClStep.
+From Verif.System Require Import Compose.
 
 Definition nmap_empty : topic_map := ∅.
 Definition nmap_insert (i : N) (n : bytes) (m : topic_map) : topic_map := <[i := n]> m.
@@ -29,4 +30,5 @@ Extraction "model.ml"
   cl_init cl_step cl_run handle_set match_route split join valid_filter
   q_new q_step q_run st_new st_step st_run txn_new txn_step txn_run
   parse_options tool_cfg gateway_starts client_tool_starts parse_line
-  chk_C23c chk_C27 chk_C17 chk_C31c cmon_init cmon_step.
+  chk_C23c chk_C27 chk_C17 chk_C31c cmon_init cmon_step
+  sys_init sys_step sys_run broker_init cl_next_deadline gw_next_deadline.
